@@ -114,11 +114,15 @@ func execFields(in val.V) val.V {
 		return encField(id.IsSet(), id.String(), err != nil)
 	case 1:
 		id := sse.ID("previous")
-		err := id.UnmarshalText(in.At(1).Bytes())
+		buf := append([]byte(nil), in.At(1).Bytes()...)
+		err := id.UnmarshalText(buf)
+		scribble(buf) // the caller may reuse its buffer: the value must not change (nor become multi-line) afterwards
 		return encField(id.IsSet(), id.String(), err != nil)
 	case 2:
 		id := sse.ID("previous")
-		err := id.UnmarshalJSON(in.At(1).Bytes())
+		buf := append([]byte(nil), in.At(1).Bytes()...)
+		err := id.UnmarshalJSON(buf)
+		scribble(buf)
 		return encField(id.IsSet(), id.String(), err != nil)
 	case 3:
 		ty := sse.Type("previous")
@@ -127,13 +131,16 @@ func execFields(in val.V) val.V {
 		case 0:
 			src = nil
 		case 1:
-			src = in.At(2).Bytes()
+			src = append([]byte(nil), in.At(2).Bytes()...)
 		case 2:
 			src = in.At(2).Str()
 		default:
 			src = 42
 		}
 		err := ty.Scan(src)
+		if b, ok := src.([]byte); ok {
+			scribble(b) // database/sql reuses the []byte it hands to Scan
+		}
 		return encField(ty.IsSet(), ty.String(), err != nil)
 	case 4:
 		req := httptest.NewRequest(http.MethodGet, "/", nil)
@@ -147,4 +154,11 @@ func execFields(in val.V) val.V {
 		return encField(sess.LastEventID.IsSet(), sess.LastEventID.String(), false)
 	}
 	return val.L()
+}
+
+// scribble overwrites a buffer the callee has been given with line breaks.
+func scribble(b []byte) {
+	for i := range b {
+		b[i] = '\n'
+	}
 }
